@@ -385,7 +385,7 @@ func runProgram(c progCase) (hist []porcupine.Operation, dupInv string) {
 var concRuns int64
 
 func checkProgram(c progCase) []vf.Finding {
-	runs := vf.N(20, 300)
+	runs := vf.Size(20, 300) // per program; the number of programs is what the tier scales
 	for r := 0; r < runs; r++ {
 		procs := []int{2, 4, 16}[r%3]
 		if c.Procs > 0 {
